@@ -35,7 +35,7 @@ def run(ctx):
     except Exception as ex:
         ctx.oblige(TR, False, repr(ex))
     common.lean_obligations(ctx, ["Props.C18", "Sympler.Restart", "symdrv"], ["Props.C18"], THEOREMS, MODULES)
-    n = 24 if not ctx.thorough else 600
+    n = 24 if not ctx.thorough else 2400
     workers = 12
     per = (n + workers - 1) // workers
     base = os.path.join(common.WORK, "c18-%d" % os.getpid())
